@@ -119,7 +119,10 @@ def _run_task(modname, task):
     import importlib
     mod = importlib.import_module(modname)
     try:
+        t0 = time.time()
         res = mod.run_task(task)
+        if os.environ.get('VERIF_VERBOSE'):
+            sys.stderr.write('task %r done in %.1fs\n' % (task, time.time() - t0))
         return ('ok', res)
     except Exception:
         return ('err', 'task %r\n%s' % (task, traceback.format_exc()))
